@@ -38,7 +38,23 @@ def main(argv):
         mod.run(chk)
         if tier == 'thorough' and hasattr(mod, 'thorough'):
             mod.thorough(chk)
+        if tier == 'thorough' and not os.environ.get('VERIF_VARIANT'):
+            from . import variants
+            st = variants.run_all(chk)
+            if st is not None:
+                chk.selftest = st
+                for line in st['problems']:
+                    print('SELFTEST-PROBLEM ' + line)
+                if st['stale']:
+                    print('SELFTEST-NOTE stale variants (edit text no longer present): ' + ', '.join(st['stale']))
+                print('SELFTEST %s: %d variants, breaking reported %d/%d (+%d failed closed), benign silent %d/%d'
+                      % (pid, st['variants'], st['breaking_reported'], st['breaking'], st['breaking_failed_closed'],
+                         st['benign_silent'], st['benign']))
         rc = chk.finish()
+        if chk.selftest and chk.selftest['problems'] and rc == 0:
+            print('ANALYSIS-ERROR property=%s variant self-test: the checker missed a recorded breaking variant or flagged '
+                  'a behaviour-preserving one (see SELFTEST-PROBLEM lines)' % pid)
+            rc = 2
     except core.AnalysisError as e:
         print('ANALYSIS-ERROR property=%s %s' % (pid, e))
         return 2
